@@ -162,7 +162,7 @@ DumpFile == IF "VERIF_DUMP" \in DOMAIN IOEnv THEN IOEnv.VERIF_DUMP ELSE ""
 Complete == Len(prog) = FamLen(fam)
 
 OutRec(line) == IF OutOfDomain(line) THEN [x |-> Last(line.ts).t]
-                ELSE [t |-> Texts(line.ts), e |-> line.ev]
+                ELSE [t |-> Texts(line.ts), e |-> ClassEv(line.ev)]
 
 DumpConstraint ==
   IF DumpFile # "" /\ Complete
